@@ -35,7 +35,7 @@ func init() {
 			"the mutated byte stream / datagram is what the receiving endpoint's socket returns; everything else is delivered unchanged",
 		},
 		Units:          units,
-		QuickBudget:    85,
+		QuickBudget:    240,
 		ThoroughBudget: 900,
 	})
 }
